@@ -14,7 +14,7 @@ echo "demo_cmd: $demo_cmd"
 git apply "$S/patch.diff" || { echo "SEED-FAIL patch does not apply"; exit 1; }
 suite=$(cargo nextest run --workspace --no-fail-fast --offline --test-threads 8 2>&1 | grep -E "^\s+Summary" | tail -1)
 echo "suite with patch: $suite"
-echo "$suite" | grep -Eq "504 passed( \([0-9]+ leaky\))?, 1 failed" || { echo "SEED-FAIL suite changed"; git checkout -q -- .; exit 1; }
+echo "$suite" | grep -Eq "504 passed( \([^)]*\))?, 1 failed" || { echo "SEED-FAIL suite changed"; git checkout -q -- .; exit 1; }
 git apply "$S/demo.diff" || { echo "SEED-FAIL demo does not apply"; git checkout -q -- .; exit 1; }
 if (eval "$demo_cmd") >/tmp/seed/demo-$ID-$V-with.log 2>&1; then echo "SEED-FAIL demo passes with patch"; git checkout -q -- .; git clean -qfd -e SEED -e target; exit 1; fi
 echo "demo fails with patch: ok ($(grep -E 'test result|panicked' /tmp/seed/demo-$ID-$V-with.log | head -2 | tr '\n' ' '))"
